@@ -215,7 +215,8 @@ def run_harness(name, target_dir, unwind_override=None, cap_s=600, mem_gb=6, pla
     res["symex_s"] = round(sum(float(x) for x in re.findall(r"Runtime Symex: ([0-9.e+-]+)s", out)), 3)
     res["queries"] = len(re.findall(r"Runtime decision procedure", out))
     res["stubs_applied"] = sorted(set(re.findall(r"- Stub: (.*)", out)))
-    res["oom"] = bool(re.search(r"Status: ERROR|std::bad_alloc|Out of memory|out of memory", out))
+    # "No exit code?": CBMC was killed by a signal - under our `ulimit -v` that is memory exhaustion
+    res["oom"] = bool(re.search(r"Status: ERROR|std::bad_alloc|Out of memory|out of memory|No exit code\?", out))
     res["build_failed"] = ("error: could not compile" in out) or ("error[E" in out)
     gm = re.search(r"Reading GOTO program from file (\S+)", out)
     res["goto_file"] = gm.group(1) if gm else None
